@@ -58,6 +58,17 @@ def errname(e):
     return "Other:" + type(e).__name__
 
 
+def dec(n):
+    """decimal text of an integer of ANY size.  CPython refuses str() of integers with more than 4300 digits (ValueError);
+    the harness must not lift that limit for the process (the code under test runs in-process and its behaviour under the
+    default limit is what is being checked - see defect F15), so oversized values go through `decimal`, which is exact."""
+    try:
+        return str(n)
+    except ValueError:
+        import decimal
+        return format(decimal.Decimal(n), "f")
+
+
 def hx(b):
     return "x" + bytes(b).hex()
 
